@@ -46,6 +46,10 @@ type trFn struct {
 	recv, name string // Go receiver type name ("" for a plain function) and function name
 }
 
+// trDispatch: entries of the translation list whose receiver is an interface represented as a sum: the definition
+// dispatches on the alternative.
+var trDispatch = map[string]bool{"Matcher.Match": true}
+
 func (f trFn) key() string {
 	if f.recv == "" {
 		return f.name
@@ -60,26 +64,45 @@ func (f trFn) lean() string {
 }
 
 // trIfaceSum: interfaces represented by a sum of the struct types that implement them in the translated code.
-var trIfaceSum = map[string][]string{"Transport": {"WebsocketTransport", "XMPPTransport"}}
+// An alternative is the name of a type of the interface's package, with a leading * when the dynamic type is the pointer.
+// open: the sum has one more alternative `other` for every dynamic type that is not listed.
+type trSum struct {
+	alts []string
+	open bool
+}
+
+var trIfaceSum = map[string]trSum{
+	"Transport": {[]string{"*WebsocketTransport", "*XMPPTransport"}, false},
+	"Packet":    {[]string{"Message", "*IQ", "Presence"}, true},
+	"Matcher":   {[]string{"nameMatcher", "nsTypeMatcher", "nsIQMatcher"}, false},
+}
+
+// trIfaceRecord: interfaces represented by the record of the results of their (pure, parameterless) methods.
+var trIfaceRecord = map[string][]string{"IQPayload": {"Namespace"}}
 
 // trExtern: functions the translation does not enter. A call becomes a call of a PARAMETER of the translated function
 // (named ext_<name>) with the translatable arguments only; the tie theorems hold for every such parameter.
 var trExtern = map[string]bool{"authPlain": true}
 
 type trCtx struct {
-	needRnd     map[string]bool     // key -> calls rand.Intn, directly or through a translated callee
-	needExt     map[string][]string // key -> extern functions called, directly or through a translated callee
-	sums        []string            // interface sums to emit
+	needRnd     map[string]bool        // key -> calls rand.Intn, directly or through a translated callee
+	needExt     map[string][]string    // key -> extern functions called, directly or through a translated callee
+	sumDefs     map[string][][2]string // lean sum name -> (constructor, payload type)
+	sumOpen     map[string]bool
+	sumGo       map[string]string      // lean sum name -> Go interface name
+	records     map[string][][2]string // lean record name -> (method, result type)
 	seenSum     map[string]bool
 	p           *pkg
 	info        *types.Info
 	tpkg        *types.Package
-	funcs       map[string]trFn // key -> fn (translated in this file, callable)
-	mutRecv     map[string]bool // key -> receiver is assigned
+	funcs       map[string]trFn  // key -> fn (translated in this file, callable)
+	mutRecv     map[string]bool  // key -> receiver is assigned
+	mutParams   map[string][]int // key -> indices of the pointer parameters whose fields are assigned (directly or by a callee)
 	globals     map[string]bool
 	globalDecls []string
 	structs     []string // struct names in emission order
 	stTypes     map[string]*types.Struct
+	inProgress  map[string]bool
 	seenSt      map[string]bool
 	cur         *trFnState
 }
@@ -96,9 +119,11 @@ type trFnState struct {
 	loopVars [][]string      // the assigned-variable tuples of the enclosing loops
 	inSwitch int             // > 0 inside a switch nested in the innermost loop (break would leave the switch)
 	shadowed map[string]int  // variable -> depth of a := that shadows an outer variable
+	mutVars  []string        // receiver and pointer parameters that are assigned: returned after the results
 	named    []string        // named results
 	dropped  map[string]bool // parameters of types outside the subset: not translated, any use fails
 	key      string
+	tmp      int
 }
 
 type trErr struct{ msg string }
@@ -138,7 +163,8 @@ func typecheck(p *pkg, name string, local map[string]*types.Package) (*types.Inf
 	if trSrcImporter == nil {
 		trSrcImporter = importer.ForCompiler(token.NewFileSet(), "source", nil)
 	}
-	info := &types.Info{Types: map[ast.Expr]types.TypeAndValue{}, Defs: map[*ast.Ident]types.Object{}, Uses: map[*ast.Ident]types.Object{}}
+	info := &types.Info{Types: map[ast.Expr]types.TypeAndValue{}, Defs: map[*ast.Ident]types.Object{}, Uses: map[*ast.Ident]types.Object{},
+		Selections: map[*ast.SelectorExpr]*types.Selection{}, Implicits: map[ast.Node]types.Object{}}
 	conf := types.Config{Importer: trImporter{trSrcImporter, local}, Error: func(error) {}}
 	tp, _ := conf.Check(name, p.fset, p.files, info)
 	return info, tp
@@ -212,36 +238,64 @@ func (t *trCtx) typ(n ast.Node, ty types.Type) string {
 		if name == "error" {
 			return "GoRT.Err"
 		}
-		if u.Obj().Pkg() != nil && u.Obj().Pkg() != t.tpkg {
-			if u.Obj().Pkg().Path() == "time" && name == "Duration" {
-				return "Int"
-			}
-			if _, isSt := u.Underlying().(*types.Struct); isSt && (u.Obj().Pkg().Path() == "stanza" || strings.HasSuffix(u.Obj().Pkg().Path(), "/stanza")) {
-				ln := "stanza_" + name
-				t.needStructT(ln, u)
-				return ln
-			}
+		foreign := u.Obj().Pkg() != nil && u.Obj().Pkg() != t.tpkg
+		if foreign && u.Obj().Pkg().Path() == "time" && name == "Duration" {
+			return "Int"
+		}
+		isStanza := foreign && (u.Obj().Pkg().Path() == "stanza" || strings.HasSuffix(u.Obj().Pkg().Path(), "/stanza"))
+		if foreign && !isStanza {
 			t.fail(n, "type %s.%s is outside the subset", u.Obj().Pkg().Path(), name)
 		}
-		switch u.Underlying().(type) {
+		ln := name
+		if isStanza {
+			ln = "stanza_" + name
+		}
+		switch under := u.Underlying().(type) {
 		case *types.Struct:
-			t.needStructT(name, u)
-			return name
+			if t.inProgress[ln] {
+				t.fail(n, "recursive structure %s is outside the subset", ln)
+			}
+			t.needStructT(ln, u)
+			return ln
 		case *types.Interface:
-			if as, ok := trIfaceAs[name]; ok {
+			if as, ok := trIfaceAs[name]; ok && !foreign {
 				t.needStruct(as)
 				return as
 			}
-			if alts, ok := trIfaceSum[name]; ok {
-				if !t.seenSum[name] {
-					t.seenSum[name] = true
-					for _, a := range alts {
-						t.needStruct(a)
+			if ms, ok := trIfaceRecord[name]; ok {
+				if !t.seenSum[ln] {
+					t.seenSum[ln] = true
+					var fs [][2]string
+					for _, m := range ms {
+						for i := 0; i < under.NumMethods(); i++ {
+							if under.Method(i).Name() == m {
+								sig := under.Method(i).Type().(*types.Signature)
+								fs = append(fs, [2]string{m, t.tuple(n, sig.Results())})
+							}
+						}
 					}
-					t.sums = append(t.sums, name)
+					t.records[ln] = fs
+					t.structs = append(t.structs, "record:"+ln)
 				}
-				return name
+				return ln
 			}
+			if sum, ok := trIfaceSum[name]; ok {
+				if !t.seenSum[ln] {
+					t.seenSum[ln] = true
+					var cs [][2]string
+					for _, a := range sum.alts {
+						obj := u.Obj().Pkg().Scope().Lookup(strings.TrimPrefix(a, "*"))
+						if obj == nil {
+							t.fail(n, "alternative %s of %s not found", a, name)
+						}
+						cs = append(cs, [2]string{strings.TrimPrefix(a, "*"), t.typ(n, obj.Type())})
+					}
+					t.sumDefs[ln], t.sumOpen[ln], t.sumGo[ln] = cs, sum.open, name
+					t.structs = append(t.structs, "sum:"+ln)
+				}
+				return ln
+			}
+			t.fail(n, "interface %s is outside the subset", name)
 		}
 		return t.typ(n, u.Underlying())
 	case *types.Slice:
@@ -296,6 +350,8 @@ func (t *trCtx) needStructT(name string, ty types.Type) {
 		t.fail(nil, "%s is not a struct", name)
 	}
 	t.stTypes[name] = st
+	t.inProgress[name] = true
+	defer delete(t.inProgress, name)
 	for i := 0; i < st.NumFields(); i++ {
 		func() {
 			defer func() { recover() }()
@@ -307,6 +363,8 @@ func (t *trCtx) needStructT(name string, ty types.Type) {
 
 func (t *trCtx) structDecl(name string) string {
 	st := t.stTypes[name]
+	t.inProgress[name] = true
+	defer delete(t.inProgress, name)
 	var sb strings.Builder
 	var skipped []string
 	fmt.Fprintf(&sb, "structure %s where\n  isNil : Bool := false\n", name)
@@ -476,7 +534,23 @@ func (t *trCtx) expr(e ast.Expr) string {
 				t.fail(x, "%s.%s used as a value is outside the subset", id.Name, x.Sel.Name)
 			}
 		}
-		return t.atom(x.X) + "." + leanIdent(x.Sel.Name)
+		base := t.atom(x.X)
+		if sel, ok := t.info.Selections[x]; ok && sel.Kind() == types.FieldVal && len(sel.Index()) > 1 {
+			// a field promoted from embedded structs: spell the path out
+			ty := sel.Recv()
+			for _, i := range sel.Index()[:len(sel.Index())-1] {
+				if p, ok := ty.Underlying().(*types.Pointer); ok {
+					ty = p.Elem()
+				}
+				st, ok := ty.Underlying().(*types.Struct)
+				if !ok {
+					t.fail(x, "selector %s is outside the subset", exprString(x))
+				}
+				base += "." + leanIdent(st.Field(i).Name())
+				ty = st.Field(i).Type()
+			}
+		}
+		return base + "." + leanIdent(x.Sel.Name)
 	case *ast.IndexExpr:
 		return "(GoRT.idx " + t.atom(x.X) + " " + t.atom(x.Index) + ")"
 	case *ast.SliceExpr:
@@ -768,6 +842,24 @@ func (t *trCtx) call(x *ast.CallExpr) string {
 		// method call on a value of a translated struct type
 		rt := t.tyOf(f.X)
 		if rt != nil {
+			if nt, ok := rt.(*types.Named); ok {
+				if _, isIf := nt.Underlying().(*types.Interface); isIf {
+					ln := t.typ(x, rt)
+					for _, m := range t.records[ln] {
+						if m[0] == f.Sel.Name && len(x.Args) == 0 {
+							return t.atom(f.X) + "." + leanIdent(f.Sel.Name)
+						}
+					}
+					if _, isSum := t.sumDefs[ln]; isSum {
+						// dynamic dispatch over the alternatives of the sum
+						d := trFn{recv: nt.Obj().Name(), name: f.Sel.Name}
+						if _, ok := t.funcs[d.key()]; !ok {
+							t.fail(x, "method %s of the interface %s has no dispatcher in the translation list", f.Sel.Name, nt.Obj().Name())
+						}
+						return "(" + d.lean() + " " + t.atom(f.X) + " " + args() + ")"
+					}
+				}
+			}
 			name := ""
 			if p, ok := rt.(*types.Pointer); ok {
 				rt = p.Elem()
@@ -776,8 +868,8 @@ func (t *trCtx) call(x *ast.CallExpr) string {
 				name = n.Obj().Name()
 			}
 			if fn, ok := t.funcs[name+"."+f.Sel.Name]; ok {
-				if t.mutRecv[fn.key()] {
-					t.fail(x, "call of %s, which assigns its receiver, in expression position is outside the subset", fn.key())
+				if t.mutRecv[fn.key()] || len(t.mutParams[fn.key()]) > 0 {
+					t.fail(x, "call of %s, which assigns its receiver or a parameter, in expression position is outside the subset", fn.key())
 				}
 				s := fn.lean() + t.extraArgs(fn.key()) + " " + t.atom(f.X)
 				if len(x.Args) > 0 {
@@ -795,6 +887,40 @@ func (t *trCtx) call(x *ast.CallExpr) string {
 		return "(" + t.call(inner) + " " + args() + ")"
 	}
 	t.fail(x, "call %s is outside the subset", exprString(x.Fun))
+	return ""
+}
+
+// intoSum wraps the translation v of e when e (of a concrete type) flows into a position of an interface type that is
+// represented as a sum
+func (t *trCtx) intoSum(e ast.Expr, v string, target types.Type) string {
+	nt, ok := target.(*types.Named)
+	if !ok {
+		return v
+	}
+	if _, isSum := trIfaceSum[nt.Obj().Name()]; !isSum {
+		return v
+	}
+	et := t.tyOf(e)
+	if et == nil {
+		return v
+	}
+	if pt, ok := et.(*types.Pointer); ok {
+		et = pt.Elem()
+	}
+	en, ok := et.(*types.Named)
+	if !ok || en == nt {
+		return v
+	}
+	ln := t.typ(e, target)
+	for _, c := range t.sumDefs[ln] {
+		if c[0] == en.Obj().Name() {
+			if strings.ContainsAny(v, " ") && !(strings.HasPrefix(v, "(") && balancedOuter(v)) {
+				v = "(" + v + ")"
+			}
+			return "(" + ln + "." + leanIdent(c[0]) + " " + v + ")"
+		}
+	}
+	t.fail(e, "a %s flows into a %s: not an alternative of the sum", en.Obj().Name(), nt.Obj().Name())
 	return ""
 }
 
@@ -866,22 +992,11 @@ func (t *trCtx) ret(n ast.Node, es []ast.Expr) string {
 			continue
 		}
 		v := t.expr(e)
-		if nt, ok := rty.(*types.Named); ok {
-			if _, isSum := trIfaceSum[nt.Obj().Name()]; isSum {
-				et := t.tyOf(e)
-				if pt, ok := et.(*types.Pointer); ok {
-					et = pt.Elem()
-				}
-				if en, ok := et.(*types.Named); ok && en != nt {
-					t.typ(e, rty)
-					v = "(" + nt.Obj().Name() + "." + en.Obj().Name() + " " + t.atom(e) + ")"
-				}
-			}
-		}
+		v = t.intoSum(e, v, rty)
 		parts = append(parts, v)
 	}
-	if c.mut {
-		parts = append(parts, leanIdent(c.recv))
+	for _, mv := range c.mutVars {
+		parts = append(parts, leanIdent(mv))
 	}
 	v := ""
 	switch len(parts) {
@@ -945,6 +1060,14 @@ func (t *trCtx) assigned(list []ast.Stmt) []string {
 				}
 			case *ast.IncDecStmt:
 				lhs(x.X)
+			case *ast.CallExpr:
+				if _, vars, ok := t.mutCall(x); ok {
+					for _, v := range vars {
+						if !declared[v] {
+							set[v] = true
+						}
+					}
+				}
 			case *ast.DeclStmt:
 				if gd, ok := x.Decl.(*ast.GenDecl); ok {
 					for _, sp := range gd.Specs {
@@ -1054,9 +1177,28 @@ func (t *trCtx) stmts(list []ast.Stmt, ind string, k func(ind string) string) st
 		return out + cont(ind)
 	case *ast.IfStmt:
 		if x.Init != nil {
-			t.fail(x, "if with an initialiser is outside the subset")
+			// `if v := e; cond {..} else {..}`: the initialiser, then the plain if, in a block of their own
+			plain := *x
+			plain.Init = nil
+			return t.block([]ast.Stmt{x.Init, &plain}, ind, cont)
 		}
-		c := t.expr(x.Cond)
+		pre := ""
+		var c string
+		if call, ok := x.Cond.(*ast.CallExpr); ok {
+			if fn, vars, ok := t.mutCall(call); ok {
+				// the condition is a call that assigns through its receiver / pointer parameters: evaluate it first
+				if t.resultCount(fn) != 1 {
+					t.fail(x, "condition %s is outside the subset", exprString(x.Cond))
+				}
+				t.cur.tmp++
+				tmp := fmt.Sprintf("cond%d", t.cur.tmp)
+				pre = ind + "let " + leanTuple(append([]string{tmp}, vars...)) + " := " + t.callMut(call, fn) + "\n"
+				c = tmp
+			}
+		}
+		if c == "" {
+			c = t.expr(x.Cond)
+		}
 		thenB := t.block(x.Body.List, ind+"  ", cont)
 		var elseB string
 		switch e := x.Else.(type) {
@@ -1067,7 +1209,7 @@ func (t *trCtx) stmts(list []ast.Stmt, ind string, k func(ind string) string) st
 		case *ast.IfStmt:
 			elseB = t.stmts([]ast.Stmt{e}, ind+"  ", cont)
 		}
-		return ind + "if " + c + " then\n" + thenB + "\n" + ind + "else\n" + elseB
+		return pre + ind + "if " + c + " then\n" + thenB + "\n" + ind + "else\n" + elseB
 	case *ast.SwitchStmt:
 		if x.Init != nil || x.Tag == nil {
 			t.fail(x, "switch without a tag or with an initialiser is outside the subset")
@@ -1107,18 +1249,20 @@ func (t *trCtx) stmts(list []ast.Stmt, ind string, k func(ind string) string) st
 		}
 		_ = hasDef
 		return out + t.block(def, cur, cont)
+	case *ast.TypeSwitchStmt:
+		return t.typeSwitch(x, ind, cont)
 	case *ast.ForStmt:
 		return t.forStmt(x, ind, cont)
 	case *ast.RangeStmt:
 		return t.rangeStmt(x, ind, cont)
 	case *ast.ExprStmt:
 		if c, ok := x.X.(*ast.CallExpr); ok {
-			if fn, recv, ok := t.mutCall(c); ok {
-				lhs := leanIdent(recv)
-				if n := t.resultCount(fn); n > 0 {
-					lhs = "(" + strings.Repeat("_, ", n) + lhs + ")"
+			if fn, vars, ok := t.mutCall(c); ok {
+				var names []string
+				for i := 0; i < t.resultCount(fn); i++ {
+					names = append(names, "_")
 				}
-				return ind + "let " + lhs + " := " + t.callMut(c, fn) + "\n" + cont(ind)
+				return ind + "let " + leanTuple(append(names, vars...)) + " := " + t.callMut(c, fn) + "\n" + cont(ind)
 			}
 		}
 		t.fail(x, "expression statement %s is outside the subset", exprString(x.X))
@@ -1140,6 +1284,101 @@ func (t *trCtx) stmts(list []ast.Stmt, ind string, k func(ind string) string) st
 	}
 	t.fail(s, "statement %T is outside the subset", s)
 	return ""
+}
+
+// sumOf: the Lean name of the sum that represents the (interface) type of e
+func (t *trCtx) sumOf(e ast.Expr) string {
+	ty := t.tyOf(e)
+	if ty == nil {
+		t.fail(e, "value of unknown type")
+	}
+	ln := t.typ(e, ty)
+	if _, ok := t.sumDefs[ln]; !ok {
+		t.fail(e, "a type switch / assertion on a %s is outside the subset", ty)
+	}
+	return ln
+}
+
+// ctorOf: the constructor of sum `ln` for the dynamic type written as `te` (e.g. *stanza.IQ)
+func (t *trCtx) ctorOf(ln string, te ast.Expr) string {
+	ptr := false
+	if st, ok := te.(*ast.StarExpr); ok {
+		ptr, te = true, st.X
+	}
+	name := ""
+	switch x := te.(type) {
+	case *ast.Ident:
+		name = x.Name
+	case *ast.SelectorExpr:
+		name = x.Sel.Name
+	}
+	want := name
+	if ptr {
+		want = "*" + name
+	}
+	for _, a := range trIfaceSum[t.sumGo[ln]].alts {
+		if a == want {
+			return leanIdent(name)
+		}
+	}
+	t.fail(te, "dynamic type %s is not an alternative of the sum %s: outside the subset", exprString(te), ln)
+	return ""
+}
+
+// typeSwitch: `switch v := x.(type) { case A: ..; case *B: ..; default: .. }` over an interface represented as a sum
+func (t *trCtx) typeSwitch(x *ast.TypeSwitchStmt, ind string, cont func(string) string) string {
+	if x.Init != nil {
+		t.fail(x, "type switch with an initialiser is outside the subset")
+	}
+	var subject ast.Expr
+	bind := ""
+	switch a := x.Assign.(type) {
+	case *ast.ExprStmt:
+		subject = a.X.(*ast.TypeAssertExpr).X
+	case *ast.AssignStmt:
+		subject = a.Rhs[0].(*ast.TypeAssertExpr).X
+		bind = a.Lhs[0].(*ast.Ident).Name
+	}
+	ln := t.sumOf(subject)
+	t.cur.inSwitch++
+	defer func() { t.cur.inSwitch-- }()
+	contSw := cont
+	cont = func(ind string) string {
+		t.cur.inSwitch--
+		defer func() { t.cur.inSwitch++ }()
+		return contSw(ind)
+	}
+	out := ind + "match " + t.expr(subject) + " with\n"
+	var def []ast.Stmt
+	for _, cc := range x.Body.List {
+		c := cc.(*ast.CaseClause)
+		if c.List == nil {
+			def = c.Body
+			continue
+		}
+		for _, te := range c.List {
+			if isNilIdent(te) {
+				out += ind + "| .nil =>\n" + t.block(c.Body, ind+"  ", cont) + "\n"
+				continue
+			}
+			ctor := t.ctorOf(ln, te)
+			v := "_"
+			if bind != "" && len(c.List) == 1 {
+				v = leanIdent(bind)
+			}
+			t.cur.depth++
+			if v != "_" {
+				t.cur.scope[bind] = t.cur.depth
+			}
+			body := t.block(c.Body, ind+"  ", cont)
+			if v != "_" {
+				delete(t.cur.scope, bind)
+			}
+			t.cur.depth--
+			out += ind + "| ." + ctor + " " + v + " =>\n" + body + "\n"
+		}
+	}
+	return out + ind + "| _ =>\n" + t.block(def, ind+"  ", cont)
 }
 
 func (t *trCtx) block(list []ast.Stmt, ind string, cont func(string) string) string {
@@ -1198,6 +1437,11 @@ func (t *trCtx) store(target ast.Expr, val string, ind string) string {
 		return ind + "let " + leanIdent(x.Name) + " := " + val + "\n"
 	case *ast.SelectorExpr:
 		if id, ok := x.X.(*ast.Ident); ok {
+			// a field outside the subset (a handler, a connection, a lock) is not part of the translated structure:
+			// the assignment is left out
+			if ft := t.tyOf(x); ft != nil && !t.translatable(ft) {
+				return ""
+			}
 			return ind + "let " + leanIdent(id.Name) + " := { " + leanIdent(id.Name) + " with " + leanIdent(x.Sel.Name) + " := " + val + " }\n"
 		}
 	case *ast.StarExpr:
@@ -1235,6 +1479,12 @@ func (t *trCtx) assign(x *ast.AssignStmt, ind string) string {
 			if it == nil || tt == nil {
 				t.fail(x, "type assertion of unknown type")
 			}
+			if _, isSum := t.sumDefs[t.typ(x, it)]; isSum {
+				ln := t.sumOf(ta.X)
+				ctor := t.ctorOf(ln, ta.Type)
+				return ind + "let " + leanTuple([]string{exprString(x.Lhs[0]), exprString(x.Lhs[1])}) + " := (match " + t.expr(ta.X) + " with | ." + ctor +
+					" v => (v, true) | _ => ((default : " + t.typ(x, tt) + "), false))\n"
+			}
 			if t.typ(x, it) != t.typ(x, tt) {
 				t.fail(x, "type assertion %s is outside the subset", exprString(ta))
 			}
@@ -1243,8 +1493,8 @@ func (t *trCtx) assign(x *ast.AssignStmt, ind string) string {
 		}
 		// a, b := f(x) with a tuple result
 		if c, ok := x.Rhs[0].(*ast.CallExpr); ok {
-			if fn, recv, ok := t.mutCall(c); ok {
-				return ind + "let (" + t.lhsName(x.Lhs[0]) + ", " + t.lhsName(x.Lhs[1]) + ", " + leanIdent(recv) + ") := " + t.callMut(c, fn) + "\n"
+			if fn, vars, ok := t.mutCall(c); ok {
+				return ind + "let " + leanTuple(append([]string{exprString(x.Lhs[0]), exprString(x.Lhs[1])}, vars...)) + " := " + t.callMut(c, fn) + "\n"
 			}
 			return ind + "let (" + t.lhsName(x.Lhs[0]) + ", " + t.lhsName(x.Lhs[1]) + ") := " + t.call(c) + "\n"
 		}
@@ -1253,9 +1503,14 @@ func (t *trCtx) assign(x *ast.AssignStmt, ind string) string {
 		t.fail(x, "assignment with %d targets and %d values is outside the subset", len(x.Lhs), len(x.Rhs))
 	}
 	if len(x.Lhs) == 1 {
+		if sel, ok := x.Lhs[0].(*ast.SelectorExpr); ok {
+			if ft := t.tyOf(sel); ft != nil && !t.translatable(ft) {
+				return "" // see store: the field is not part of the translated structure
+			}
+		}
 		if c, ok := x.Rhs[0].(*ast.CallExpr); ok {
-			if fn, recv, ok := t.mutCall(c); ok {
-				return ind + "let (" + t.lhsName(x.Lhs[0]) + ", " + leanIdent(recv) + ") := " + t.callMut(c, fn) + "\n"
+			if fn, vars, ok := t.mutCall(c); ok {
+				return ind + "let " + leanTuple(append([]string{exprString(x.Lhs[0])}, vars...)) + " := " + t.callMut(c, fn) + "\n"
 			}
 		}
 		val := ""
@@ -1277,32 +1532,69 @@ func (t *trCtx) assign(x *ast.AssignStmt, ind string) string {
 	return out
 }
 
-// mutCall recognises `v.M(args)` where v is a variable and M a translated method that assigns its receiver.
-func (t *trCtx) mutCall(c *ast.CallExpr) (trFn, string, bool) {
-	sel, ok := c.Fun.(*ast.SelectorExpr)
-	if !ok {
-		return trFn{}, "", false
+// calleeOf: the translated function or method a call refers to
+func (t *trCtx) calleeOf(c *ast.CallExpr) (trFn, bool) {
+	switch f := c.Fun.(type) {
+	case *ast.Ident:
+		if o, ok := t.info.Uses[f].(*types.Func); ok && o.Pkg() == t.tpkg {
+			fn, ok := t.funcs[f.Name]
+			return fn, ok
+		}
+	case *ast.SelectorExpr:
+		if o, ok := t.info.Uses[f.Sel].(*types.Func); ok {
+			if sig, ok := o.Type().(*types.Signature); ok && sig.Recv() != nil {
+				rt := sig.Recv().Type()
+				if p, ok := rt.(*types.Pointer); ok {
+					rt = p.Elem()
+				}
+				if nt, ok := rt.(*types.Named); ok {
+					fn, ok := t.funcs[nt.Obj().Name()+"."+f.Sel.Name]
+					return fn, ok
+				}
+			}
+		}
 	}
-	id, ok := sel.X.(*ast.Ident)
-	if !ok {
-		return trFn{}, "", false
+	return trFn{}, false
+}
+
+// mutCall recognises a call of a translated function that assigns its receiver or pointer parameters; it returns the
+// caller's variables (receiver first) that have to be bound to the values the callee returns for them.
+func (t *trCtx) mutCall(c *ast.CallExpr) (trFn, []string, bool) {
+	fn, ok := t.calleeOf(c)
+	if !ok || (!t.mutRecv[fn.key()] && len(t.mutParams[fn.key()]) == 0) {
+		return trFn{}, nil, false
 	}
-	rt := t.tyOf(id)
-	if rt == nil {
-		return trFn{}, "", false
+	var vars []string
+	if t.mutRecv[fn.key()] {
+		sel, ok := c.Fun.(*ast.SelectorExpr)
+		if !ok {
+			return trFn{}, nil, false
+		}
+		id, ok := sel.X.(*ast.Ident)
+		if !ok {
+			t.fail(c, "call of %s, which assigns its receiver, on something that is not a variable: outside the subset", fn.key())
+		}
+		vars = append(vars, id.Name)
 	}
-	if p, ok := rt.(*types.Pointer); ok {
-		rt = p.Elem()
+	for _, mi := range t.mutParams[fn.key()] {
+		id, ok := c.Args[mi].(*ast.Ident)
+		if !ok {
+			t.fail(c, "call of %s, which assigns through parameter %d, with an argument that is not a variable: outside the subset", fn.key(), mi)
+		}
+		vars = append(vars, id.Name)
 	}
-	n, ok := rt.(*types.Named)
-	if !ok {
-		return trFn{}, "", false
+	return fn, vars, true
+}
+
+func leanTuple(names []string) string {
+	var l []string
+	for _, n := range names {
+		l = append(l, leanIdent(n))
 	}
-	fn, ok := t.funcs[n.Obj().Name()+"."+sel.Sel.Name]
-	if !ok || !t.mutRecv[fn.key()] {
-		return trFn{}, "", false
+	if len(l) == 1 {
+		return l[0]
 	}
-	return fn, id.Name, true
+	return "(" + strings.Join(l, ", ") + ")"
 }
 
 func (t *trCtx) resultCount(fn trFn) int {
@@ -1322,9 +1614,14 @@ func (t *trCtx) resultCount(fn trFn) int {
 }
 
 func (t *trCtx) callMut(c *ast.CallExpr, fn trFn) string {
-	sel := c.Fun.(*ast.SelectorExpr)
-	s := fn.lean() + t.extraArgs(fn.key()) + " " + t.atom(sel.X)
+	s := fn.lean() + t.extraArgs(fn.key())
+	if sel, ok := c.Fun.(*ast.SelectorExpr); ok && fn.recv != "" {
+		s += " " + t.atom(sel.X)
+	}
 	for _, a := range c.Args {
+		if at := t.tyOf(a); at != nil && !t.translatable(at) {
+			continue
+		}
 		s += " " + t.atom(a)
 	}
 	return "(" + s + ")"
@@ -1358,8 +1655,21 @@ func (t *trCtx) retType() string {
 			parts = append(parts, paren(t.typ(nil, c.results.At(i).Type())))
 		}
 	}
-	if c.mut {
-		parts = append(parts, paren(t.typ(nil, t.tyOf(c.fd.Recv.List[0].Type))))
+	if c.fd != nil {
+		if obj, ok := t.info.Defs[c.fd.Name].(*types.Func); ok {
+			sig := obj.Type().(*types.Signature)
+			for _, mv := range c.mutVars {
+				if sig.Recv() != nil && mv == c.recv {
+					parts = append(parts, paren(t.typ(nil, sig.Recv().Type())))
+					continue
+				}
+				for i := 0; i < sig.Params().Len(); i++ {
+					if sig.Params().At(i).Name() == mv {
+						parts = append(parts, paren(t.typ(nil, sig.Params().At(i).Type())))
+					}
+				}
+			}
+		}
 	}
 	if len(parts) == 0 {
 		return "Unit"
@@ -1479,6 +1789,38 @@ func (t *trCtx) rangeStmt(x *ast.RangeStmt, ind string, cont func(string) string
 // ---------------------------------------------------------------------------------------------------------------
 // functions and files
 
+// fieldAssigned: does the body assign a field of the variable `name`
+func fieldAssigned(body *ast.BlockStmt, name string) bool {
+	found := false
+	ast.Inspect(body, func(n ast.Node) bool {
+		if a, ok := n.(*ast.AssignStmt); ok && a.Tok != token.DEFINE {
+			for _, l := range a.Lhs {
+				if s, ok := l.(*ast.SelectorExpr); ok && exprString(s.X) == name {
+					found = true
+				}
+			}
+		}
+		return true
+	})
+	return found
+}
+
+// paramIndex: position of the parameter `name` of fd, or -1
+func paramIndex(fd *ast.FuncDecl, name string) int {
+	idx := 0
+	if fd.Type.Params != nil {
+		for _, fld := range fd.Type.Params.List {
+			for _, nm := range fld.Names {
+				if nm.Name == name {
+					return idx
+				}
+				idx++
+			}
+		}
+	}
+	return -1
+}
+
 func recvAssigned(fd *ast.FuncDecl) bool {
 	if fd.Recv == nil || len(fd.Recv.List) != 1 || len(fd.Recv.List[0].Names) != 1 {
 		return false
@@ -1506,6 +1848,47 @@ func recvAssigned(fd *ast.FuncDecl) bool {
 	return found
 }
 
+// dispatcher: the method `name` of an interface represented as a sum, by cases on the alternative
+func (t *trCtx) dispatcher(f trFn) string {
+	obj := t.tpkg.Scope().Lookup(f.recv)
+	if obj == nil {
+		t.fail(nil, "interface %s not found", f.recv)
+	}
+	it, ok := obj.Type().Underlying().(*types.Interface)
+	if !ok {
+		t.fail(nil, "%s is not an interface", f.recv)
+	}
+	ln := t.typ(nil, obj.Type())
+	var sig *types.Signature
+	for i := 0; i < it.NumMethods(); i++ {
+		if it.Method(i).Name() == f.name {
+			sig = it.Method(i).Type().(*types.Signature)
+		}
+	}
+	if sig == nil {
+		t.fail(nil, "method %s.%s not found", f.recv, f.name)
+	}
+	var ps, as []string
+	for i := 0; i < sig.Params().Len(); i++ {
+		ps = append(ps, fmt.Sprintf("(a%d : %s)", i, t.typ(nil, sig.Params().At(i).Type())))
+		as = append(as, fmt.Sprintf("a%d", i))
+	}
+	var sb strings.Builder
+	fmt.Fprintf(&sb, "/-- dynamic dispatch of `%s.%s` over the alternatives of the sum -/\ndef %s (m : %s) %s : %s :=\n  match m with\n", f.recv, f.name, f.lean(), ln, strings.Join(ps, " "), t.tuple(nil, sig.Results()))
+	for _, c := range t.sumDefs[ln] {
+		callee, ok := t.funcs[c[0]+"."+f.name]
+		if !ok {
+			t.fail(nil, "%s.%s is not in the translation list", c[0], f.name)
+		}
+		if t.mutRecv[callee.key()] || len(t.mutParams[callee.key()]) > 0 {
+			t.fail(nil, "%s assigns its receiver or a parameter: dispatch is outside the subset", callee.key())
+		}
+		fmt.Fprintf(&sb, "  | .%s v => %s%s v %s\n", leanIdent(c[0]), callee.lean(), t.extraArgs(callee.key()), strings.Join(as, " "))
+	}
+	fmt.Fprintf(&sb, "  | _ => default\n\n")
+	return sb.String()
+}
+
 func (t *trCtx) function(f trFn) (out string) {
 	fd := t.p.fn(f.recv, f.name)
 	defer func() {
@@ -1518,6 +1901,9 @@ func (t *trCtx) function(f trFn) (out string) {
 			fmt.Fprintf(os.Stderr, "extract: go2lean: %s: %s\n", f.key(), e.msg)
 		}
 	}()
+	if trDispatch[f.key()] {
+		return t.dispatcher(f)
+	}
 	if fd == nil || fd.Body == nil {
 		t.fail(nil, "function %s not found", f.key())
 	}
@@ -1533,6 +1919,9 @@ func (t *trCtx) function(f trFn) (out string) {
 		if len(fd.Recv.List[0].Names) == 1 {
 			st.recv = fd.Recv.List[0].Names[0].Name
 			st.mut = t.mutRecv[f.key()]
+			if st.mut {
+				st.mutVars = append(st.mutVars, st.recv)
+			}
 			ps = append(ps, "("+leanIdent(st.recv)+" : "+t.typ(fd, sig.Recv().Type())+")")
 			st.scope[st.recv] = 0
 		} else {
@@ -1540,6 +1929,9 @@ func (t *trCtx) function(f trFn) (out string) {
 		}
 	}
 	st.dropped = map[string]bool{}
+	for _, i := range t.mutParams[f.key()] {
+		st.mutVars = append(st.mutVars, sig.Params().At(i).Name())
+	}
 	for i := 0; i < sig.Params().Len(); i++ {
 		p := sig.Params().At(i)
 		if !t.translatable(p.Type()) {
@@ -1606,6 +1998,18 @@ func (t *trCtx) analyse(fns []trFn) {
 		fc := &facts{}
 		fs[f.key()] = fc
 		t.mutRecv[f.key()] = recvAssigned(fd)
+		// pointer parameters whose fields the body assigns
+		if fd.Type.Params != nil {
+			idx := 0
+			for _, fld := range fd.Type.Params.List {
+				for _, nm := range fld.Names {
+					if _, ptr := fld.Type.(*ast.StarExpr); ptr && fieldAssigned(fd.Body, nm.Name) {
+						t.mutParams[f.key()] = append(t.mutParams[f.key()], idx)
+					}
+					idx++
+				}
+			}
+		}
 		recv := ""
 		if fd.Recv != nil && len(fd.Recv.List[0].Names) == 1 {
 			recv = fd.Recv.List[0].Names[0].Name
@@ -1659,6 +2063,40 @@ func (t *trCtx) analyse(fns []trFn) {
 	}
 	for changed := true; changed; {
 		changed = false
+		for _, f := range fns {
+			fd := t.p.fn(f.recv, f.name)
+			if fd == nil || fd.Body == nil {
+				continue
+			}
+			ast.Inspect(fd.Body, func(n ast.Node) bool {
+				c, ok := n.(*ast.CallExpr)
+				if !ok {
+					return true
+				}
+				callee, ok := t.calleeOf(c)
+				if !ok {
+					return true
+				}
+				for _, mi := range t.mutParams[callee.key()] {
+					if mi < len(c.Args) {
+						if id, ok := c.Args[mi].(*ast.Ident); ok {
+							if pi := paramIndex(fd, id.Name); pi >= 0 {
+								has := false
+								for _, x := range t.mutParams[f.key()] {
+									has = has || x == pi
+								}
+								if !has {
+									t.mutParams[f.key()] = append(t.mutParams[f.key()], pi)
+									sort.Ints(t.mutParams[f.key()])
+									changed = true
+								}
+							}
+						}
+					}
+				}
+				return true
+			})
+		}
 		for k, fc := range fs {
 			for _, c := range fc.selfMut {
 				if t.mutRecv[c] && !t.mutRecv[k] {
@@ -1696,8 +2134,8 @@ func shortPath(p string) string {
 func genTr(name string, p *pkg, info *types.Info, tp *types.Package, fns []trFn) *genFile {
 	g := &genFile{name: name}
 	fmt.Fprintf(&g.sb, "-- GENERATED by /verif/go/extract (go2lean, tr.go) from /repo's working tree. Do not edit; never committed as truth.\nimport XmppVerif.GoRT\nset_option linter.unusedVariables false\nnamespace XmppVerif.Gen.%s\nopen XmppVerif\n\n", name)
-	t := &trCtx{p: p, info: info, tpkg: tp, funcs: map[string]trFn{}, mutRecv: map[string]bool{}, seenSt: map[string]bool{},
-		globals: map[string]bool{}, needRnd: map[string]bool{}, needExt: map[string][]string{}, seenSum: map[string]bool{}, stTypes: map[string]*types.Struct{}}
+	t := &trCtx{p: p, info: info, tpkg: tp, funcs: map[string]trFn{}, mutRecv: map[string]bool{}, mutParams: map[string][]int{}, seenSt: map[string]bool{},
+		globals: map[string]bool{}, needRnd: map[string]bool{}, needExt: map[string][]string{}, seenSum: map[string]bool{}, sumDefs: map[string][][2]string{}, sumOpen: map[string]bool{}, sumGo: map[string]string{}, records: map[string][][2]string{}, stTypes: map[string]*types.Struct{}, inProgress: map[string]bool{}}
 	for _, f := range fns {
 		t.funcs[f.key()] = f
 	}
@@ -1707,14 +2145,27 @@ func genTr(name string, p *pkg, info *types.Info, tp *types.Package, fns []trFn)
 		bodies = append(bodies, t.function(f))
 	}
 	for _, s := range t.structs {
-		g.sb.WriteString(t.structDecl(s))
-	}
-	for _, s := range t.sums {
-		fmt.Fprintf(&g.sb, "/-- the interface %s as the sum of the struct types that implement it in the translated code -/\ninductive %s where\n  | nil\n", s, s)
-		for _, a := range trIfaceSum[s] {
-			fmt.Fprintf(&g.sb, "  | %s (v : %s)\n", a, a)
+		switch {
+		case strings.HasPrefix(s, "sum:"):
+			ln := s[4:]
+			fmt.Fprintf(&g.sb, "/-- the interface %s as the sum of the types that implement it in the translated code -/\ninductive %s where\n  | nil\n", t.sumGo[ln], ln)
+			for _, c := range t.sumDefs[ln] {
+				fmt.Fprintf(&g.sb, "  | %s (v : %s)\n", leanIdent(c[0]), c[1])
+			}
+			if t.sumOpen[ln] {
+				fmt.Fprintf(&g.sb, "  | other   -- any other dynamic type\n")
+			}
+			fmt.Fprintf(&g.sb, "  deriving Inhabited, DecidableEq, Repr\ndef %s.isNil : %s → Bool\n  | .nil => true\n  | _ => false\n\n", ln, ln)
+		case strings.HasPrefix(s, "record:"):
+			ln := s[7:]
+			fmt.Fprintf(&g.sb, "/-- an interface value as the record of what its methods return -/\nstructure %s where\n  isNil : Bool := false\n", ln)
+			for _, f := range t.records[ln] {
+				fmt.Fprintf(&g.sb, "  %s : %s := default\n", leanIdent(f[0]), f[1])
+			}
+			fmt.Fprintf(&g.sb, "  deriving Inhabited, DecidableEq, Repr\ndef %s.nil : %s := { isNil := true }\n\n", ln, ln)
+		default:
+			g.sb.WriteString(t.structDecl(s))
 		}
-		fmt.Fprintf(&g.sb, "  deriving Inhabited, DecidableEq, Repr\ndef %s.isNil : %s → Bool\n  | .nil => true\n  | _ => false\n\n", s, s)
 	}
 	for _, d := range t.globalDecls {
 		g.sb.WriteString(d + "\n")
